@@ -139,6 +139,10 @@ class ExecWalker(pathwalk.Walker):
                 if v is not None:
                     st.events.append(('touch', (st.depth, v), n.get('mn'), loc))
             return
+        if k == 'CallExpr' and n.get('cn') == 'yaclib::detail::Loop' and len(n.get('args', [])) == 2:
+            v = base_decl(fn, n['args'][1])
+            st.events.append(('finish', 'Loop', (st.depth, v) if v is not None else None, loc, self.held(st)))
+            return
         if k != 'CXXMemberCallExpr':
             return
         cn = n['cn']
@@ -313,6 +317,8 @@ def check_dequeue(ctx, fb, rule, functions):
                 while j >= 0:
                     x = ev[j]
                     if x[0] == 'next-read' and x[1] == var:
+                        read = True
+                    if x[0] == 'touch' and x[1] == var and x[2] == 'next':
                         read = True
                     if x[0] == 'pop' and x[1] == var:
                         popped = True
